@@ -313,7 +313,7 @@ fn programs() -> Vec<(&'static str, Option<String>)> {
 }
 
 fn alphabet() -> Vec<PEv> {
-    let mut v: Vec<PEv> = ["PRINT 1", "10 PRINT 2", "RUN", "NEW", "LIST", "X=", "%", "5", "x", "💥", "", "CONT", "20 INPUT Q", "TRACE", "A = 1 : PRINT 1 / 0", "NEW 10", "30 REM S   ", "PRINT \"HI   "].iter().map(|t| PEv::Submit(t.to_string())).collect();
+    let mut v: Vec<PEv> = ["PRINT 1", "10 PRINT 2", "RUN", "NEW", "LIST", "X=", "%", "5", "x", "💥", "", "CONT", "20 INPUT Q", "TRACE", "A = 1 : PRINT 1 / 0", "NEW 10", "30 REM S   ", "PRINT \"HI   ", "PRINT RND(1)", "PRINT \"\";: PRINT"].iter().map(|t| PEv::Submit(t.to_string())).collect();
     v.push(PEv::Break);
     v.push(PEv::Tick);
     v
@@ -359,7 +359,7 @@ fn probe_fresh(sys: &mut System) -> Option<(String, String)> {
 
 pub fn run(thorough: bool) -> Report {
     let mut rep = Report::new("C19", "model_checking");
-    let depth = if thorough { 9 } else { 6 };
+    let depth = if thorough { 10 } else { 6 };
     let alpha = alphabet();
     let progs = programs();
     let max_timers = 2u64;
